@@ -780,6 +780,28 @@ def prog_sql(seed: int, n_ops: int = 8, *, sorts: float = 1.0, selfjoin: float =
         else:
             op, nc = g.rand_op(g.cols[cur], allow=("calc", "dedup", "sel", "sort") if "slice" not in shape else ("calc", "dedup", "sel"))
             observed.append(g.apply(cur, op, nc))
+    if rng.random() < 0.15:
+        # scenario: a totally sorted relation cut TWICE (`Slice.then` merges the windows; the second window is relative to
+        # the first), optionally with a projection or a selection in between
+        cs = sorted(rng.sample(BASE_COLS, rng.choice([1, 2, 2])))
+        base = g.leaf("e0", cols=cs, nrows=4)
+        ts = [["term", ["ref", c], rng.choice(["asc", "desc"])] for c in cs]
+        rng.shuffle(ts)
+        cur = g.apply(base, ["sort", *ts], g.cols[base])
+        a1 = rng.choice([0, 0, 1, 1, 2])
+        cur = g.apply(cur, ["slice", a1 if (a1 or rng.random() < 0.5) else "-", rng.choice([a1 + 2, a1 + 3, a1 + 3, 10, "-"]), "-"],
+                      g.cols[cur])
+        observed.append(cur)
+        mid = rng.random()
+        if mid < 0.2 and len(cs) > 1:
+            keep = cs[:-1]
+            cur = g.apply(cur, ["proj", *keep], frozenset(keep))
+        elif mid < 0.35:
+            cur = g.apply(cur, ["sel", g.pred(g.cols[cur], 1)], g.cols[cur])
+        a2 = rng.choice([0, 1, 1, 2])
+        cur = g.apply(cur, ["slice", a2 if (a2 or rng.random() < 0.5) else "-", rng.choice([a2 + 1, a2 + 1, a2 + 2, "-"]), "-"],
+                      g.cols[cur])
+        observed.append(cur)
     if rng.random() < 0.12:
         # scenario: a zero-column "guard" relation (project onto nothing, deduplicate) joined to a table
         base = g.leaf("e0", nrows=rng.choice([0, 0, 1, 2]), bounds=rng.choice(["loose", "unbounded", "zero-min"]))
@@ -1000,6 +1022,28 @@ def prog_multi(seed: int, n_ops: int = 8, *, three: float = 0.3, prefs: float = 
         plain = g.apply(cur, ["proj", *want], frozenset(want))
         pr = g.apply(cur, ["proj", *want], frozenset(want), g.opts(src_e, True, rng.random() < 0.4, False))
         observed += [plain, pr]
+    if rng.random() < 0.1:
+        # scenario: a materialization INSIDE the database that already holds a payload (an earlier `process` attached it) is
+        # used again - as an operand of a join or a chain with a relation transferred into the database, or under another
+        # operation: every rebuild of the tree must keep that very node, payload included
+        cs = sorted(rng.sample(["a", "b", "d"], rng.choice([1, 2])))
+        src = g.leaf("e0", cols=cs, nrows=rng.choice([2, 3, 4]))
+        if rng.random() < 0.6:
+            src = g.apply(src, ["sel", g.pred(g.cols[src], 1)], g.cols[src])
+        m = g.mat(src)
+        g.emit(["process", "w" + m[1:], m])
+        how = rng.random()
+        if how < 0.45:
+            other = g.transfer(g.leaf("e1", cols=cs, nrows=rng.choice([1, 2, 3])), "e0")
+            observed.append(g.chain(m, other) if rng.random() < 0.5 else g.chain(other, m))
+        elif how < 0.8:
+            k2 = sorted({rng.choice(cs)} | {rng.choice(["a", "b", "d"])})
+            other = g.transfer(g.leaf("e1", cols=k2, nrows=rng.choice([1, 2, 3])), "e0")
+            observed.append(g.join(m, other, None) if rng.random() < 0.5 else g.join(other, m, None))
+        else:
+            op, nc = g.rand_op(g.cols[m], allow=("sel", "calc", "proj", "sort"))
+            observed.append(g.apply(m, op, nc))
+        observed.append(m)
     if rng.random() < 0.1:
         # scenario: the fixed relation of a join has a non-common column named like a column the target HID
         # (a projection downstream of a transfer); back-tracking must not move the join to where the hidden
